@@ -35,8 +35,16 @@ impl<R: io::Read> IoReader<R> {
     pub fn fill_buffer(&mut self, len: usize) -> Result<(), io::Error> {
         let l = self.buf.len();
         if l < len {
-            self.buf.resize(len, 0);
-            self.reader.read_exact(&mut self.buf[l..])?;
+            // `len` may come from untrusted input. Let the buffer grow with the data that
+            // is actually available instead of allocating `len` bytes up front.
+            let missing = (len - l) as u64;
+            let n = io::Read::read_to_end(&mut io::Read::take(&mut self.reader, missing), &mut self.buf)?;
+            if (n as u64) < missing {
+                return Err(io::Error::new(
+                    io::ErrorKind::UnexpectedEof,
+                    "failed to fill whole buffer",
+                ));
+            }
             Ok(())
         } else {
             Ok(())
@@ -90,6 +98,14 @@ impl<'de, R: io::Read + 'de> Read<'de> for IoReader<R> {
                 Ok(Some(buf[0]))
             }
         }
+    }
+
+    fn read_bytes(&mut self, n: usize) -> Result<Vec<u8>, io::Error> {
+        // Do not allocate `n` bytes before knowing that they are available
+        self.fill_buffer(n)?;
+        let bytes = self.buf.drain(..n).collect();
+        self.consumed += n;
+        Ok(bytes)
     }
 
     fn read_exact(&mut self, buf: &mut [u8]) -> Result<(), io::Error> {
